@@ -25,6 +25,7 @@ type Mix struct {
 	DepValid, RecvBroken, ReplaceValid, AdminHolder, FaultPct   int
 	Rollback                                                    int // percent of steps that start a rollback probe
 	AttProbe                                                    int // percent of steps that start an attester-change probe
+	MsgrProbe                                                   int // percent of steps that re-register a messenger and replace an earlier deposit to its domain
 	Restart                                                     int // percent of steps that are a genesis round trip
 	AdminTypes                                                  []string
 }
@@ -320,12 +321,61 @@ func queueOps(g *sim.G, ops ...*sim.Op) {
 	g.W.Scratch["queue"] = append(q, ops...)
 }
 
+// messengerChangeProbe: a deposit whose message is "in flight" while the owner re-registers the
+// destination domain's token messenger under another address (or just removes it); then the depositor
+// replaces the deposit. Message and event of the replacement speak of the original messenger.
+func messengerChangeProbe(g *sim.G, label string) []*sim.Op {
+	var cands []sim.SentMsg
+	modPad := sim.Pad32(sim.ModuleAddrBytes())
+	for _, s := range g.W.Sent {
+		if s.Burn != nil && s.Msg != nil && eq(s.Msg.Sender, modPad) && sim.AcctOfBytes(s.Burn.MsgSender[12:]) >= 0 {
+			if _, ok := g.W.Model.Msgrs[s.Msg.Dest]; ok {
+				cands = append(cands, s)
+			}
+		}
+	}
+	if len(cands) == 0 {
+		return nil
+	}
+	s := sim.Pick(g, label+"/dep", cands)
+	m := g.W.Model
+	by := sdk.AccAddress(s.Burn.MsgSender[12:]).String()
+	ops := []*sim.Op{sim.TxOp("admin:RemoveRemoteTokenMessenger", &types.MsgRemoveRemoteTokenMessenger{From: m.Roles[0], DomainId: s.Msg.Dest})}
+	if g.Pct(label+"/readd", 70) {
+		other := append([]byte{}, s.Msg.Recip...)
+		other[31] ^= byte(g.Int(label+"/x", 1, 255))
+		ops = append(ops, sim.TxOp("admin:AddRemoteTokenMessenger", &types.MsgAddRemoteTokenMessenger{From: m.Roles[0], DomainId: s.Msg.Dest, Address: other}))
+	}
+	att := g.HonestAttestation(label+"/att", s.Bytes)
+	if att == nil {
+		return ops
+	}
+	ops = append(ops, sim.TxOp("repdep", &types.MsgReplaceDepositForBurn{From: by, OriginalMessage: append([]byte{}, s.Bytes...), OriginalAttestation: att,
+		NewDestinationCaller: make([]byte, 32), NewMintRecipient: g.NonZero32(label+"/mr", by)}).WithMeta("orig", "own-deposit"))
+	return ops
+}
+
+// restartOp: a genesis round trip; optional scalars that equal their defaults may be left out of the file.
+func restartOp(g *sim.G) *sim.Op {
+	op := &sim.Op{Kind: "restart", Label: "restart"}
+	var drop []string
+	for _, f := range []string{"maxbody", "nextnonce", "threshold"} {
+		if g.Pct("restart/drop-"+f, 40) {
+			drop = append(drop, f)
+		}
+	}
+	if len(drop) > 0 {
+		op.WithMeta("drop", strings.Join(drop, ","))
+	}
+	return op
+}
+
 func (m Mix) next(g *sim.G) *sim.Op {
 	if op := queuedOp(g); op != nil {
 		return op
 	}
 	if m.Restart > 0 && len(g.W.Steps) > 0 && g.Pct("restart", m.Restart) {
-		return &sim.Op{Kind: "restart", Label: "restart"}
+		return restartOp(g)
 	}
 	if n := len(g.W.Steps); m.Recv > 0 && n > 0 && g.W.Steps[n-1].Op.Kind == "restart" {
 		// right after an export/import the most recently accepted messages are submitted again
@@ -347,6 +397,12 @@ func (m Mix) next(g *sim.G) *sim.Op {
 		ops := rollbackProbe(g, "rb")
 		queueOps(g, ops[1:]...)
 		return ops[0]
+	}
+	if m.MsgrProbe > 0 && g.Pct("msgrprobe", m.MsgrProbe) {
+		if ops := messengerChangeProbe(g, "mp"); ops != nil {
+			queueOps(g, ops[1:]...)
+			return ops[0]
+		}
 	}
 	if m.AttProbe > 0 && g.Pct("attprobe", m.AttProbe) {
 		// the attester manager enables or disables an entry (under whatever spelling it has), then
@@ -805,7 +861,7 @@ func staleAttestationProbe(g *sim.G, label string) []*sim.Op {
 }
 
 var C03 = register(&HistProp{ID: "C03",
-	Genesis: func(t *rapid.T) *sim.GenSpec { return sim.DrawGenesis(t, sim.GenOpts{UsedInGen: true, Decoys: true, AbsentOpt: true}) },
+	Genesis: func(t *rapid.T) *sim.GenSpec { return sim.DrawGenesis(t, sim.GenOpts{UsedInGen: true, Decoys: true, AbsentOpt: true, ManyUsed: true}) },
 	Next: func(g *sim.G, i int) *sim.Op {
 		if op := queuedOp(g); op != nil {
 			return op
@@ -816,7 +872,7 @@ var C03 = register(&HistProp{ID: "C03",
 				return ops[0]
 			}
 		}
-		return Mix{Recv: 14, Replay: 4, Admin: 4, Ledger: 2, RecvBroken: 65, AdminHolder: 90, FaultPct: 5, Rollback: 4, AttProbe: 3, AdminTypes: recvAdmin}.next(g)
+		return Mix{Recv: 14, Replay: 4, Admin: 4, Ledger: 2, RecvBroken: 65, AdminHolder: 90, FaultPct: 5, Rollback: 4, AttProbe: 3, Restart: 2, AdminTypes: recvAdmin}.next(g)
 	},
 	MinOps: 3, MaxOps: 25,
 	New: func() Checker {
